@@ -19,11 +19,11 @@ Notation owns := LiveHist6.owns.
 Notation W := LiveHist4.W.
 
 Lemma wf_req_parts r : wf_req r = true ->
-  rq_plan r = [] /\ rq_crash r = None /\ forallb nogetdel (rq_script r) = true.
+  rq_plan r = [] /\ rq_crash r = None.
 Proof.
-  unfold wf_req. intro H. apply andb_prop in H. destruct H as [H Hscr]. apply andb_prop in H. destruct H as [Hpl Hcr].
+  unfold wf_req. intro H. apply andb_prop in H. destruct H as [Hpl Hcr].
   split; [destruct (rq_plan r); [reflexivity | discriminate]|].
-  split; [destruct (rq_crash r); [discriminate | reflexivity] | exact Hscr].
+  destruct (rq_crash r); [discriminate | reflexivity].
 Qed.
 
 Lemma req_q_pjar w r : rq_present r = PJar ->
@@ -78,7 +78,7 @@ Theorem own_any j w g r x :
   exists k', ob_jar (snd (step w (HReq r))) = CKey k' /\
              owns j (rq_client r) k' (fl j (now (w_st w))) (fst (step w (HReq r))).
 Proof.
-  intros HJ HW Hwf Hpj Hnd Hm Hst. destruct (wf_req_parts r Hwf) as (Hpl & Hcr & Hscr).
+  intros HJ HW Hwf Hpj Hnd Hm Hst. destruct (wf_req_parts r Hwf) as (Hpl & Hcr).
   destruct (ob_start_start w r x Hpl Hcr Hpj Hst) as (s2 & o & ck & Est).
   set (q := mkReq (jar_of (w_jars w) (rq_client r)) (rq_create r) (rq_addr r) (rq_ua r)) in *.
   destruct (prep_Inv w g r HJ) as (HI1 & HG1).
